@@ -13,7 +13,7 @@ Kw2(u, v)      == << <<"val", u>>, <<"other", v>> >>
 ArgsOne    == {<< <<v>>, <<>> >> : v \in Toks} \cup {<< <<>>, Kw1(v) >> : v \in Toks}
 ArgsTwo(C) == {<< <<u, v>>, <<>> >> : u \in C, v \in C} \cup {<< <<u>>, Kw1(v) >> : u \in C, v \in C}
               \cup {<< <<>>, Kw2(u, v) >> : u \in C, v \in C}
-Core       == {"O1", "O2", "R1", "R2", "H2", "M1", "M2", "M4", "M6", "N1", "L1", "D1"}
+Core       == {"O1", "R1", "R2", "H2", "M1", "M2", "M4", "N1", "L1"}
 
 FamV(AS, CT, PT) == {Desc(<<>>, <<Ent(AutoMark, <<Comp(t, a[1], a[2])>>)>>) : t \in CT, a \in AS}
                     \cup {Desc(<<Comp(t, a[1], a[2])>>, <<>>) : t \in PT, a \in AS}
@@ -52,7 +52,7 @@ SHsT == {SH0, SH1, SH2, SH3, SH4, SH5}
 PSOf(k) == CASE k = "TS0" -> PS0 [] k = "TS1" -> PS1 [] k = "TS2" -> PS2 [] k = "TS3" -> PS3
              [] k = "TS4" -> PS4 [] k = "TS5" -> PS5 [] k = "TS6" -> PS6
 QuickV(u) == FamV(ArgsOne \cup ArgsTwo(Core), {"CPlain", "CHandler"}, {"PA"})
-QuickS(u) == FamS({PS0, PS2, PS5, PS6}, 3, IdsQ, {SH0, SH1, SH3, SH4})
+QuickS(u) == FamS({PS0, PS5, PS6}, 3, IdsQ, {SH0, SH1, SH3, SH4})
 DescsOf ==
     CASE Fam = "tiny"   -> FamS({PS0, PS2}, 2, {<<"i", 1>>}, {SH1, SH3}) \cup FamV({<< <<"R2">>, Kw1("H2") >>}, {"CHandler"}, {})
       [] Fam = "quickV" -> QuickV(0)
